@@ -591,7 +591,7 @@ def check_c16(run):
 
 HT = lambda f: f.text
 LEAKY = ("double drop", "leak", "never dropped", "blocks still allocated", "wrong layout", "unknown block", "already been dropped", "double drops")
-MEMORY = ("red zone", "invalid layout", "unknown block", "wrong layout", "MISALIGNED", "SLOT_OUT_OF_BLOCK", "already been dropped", "two mutable references", "assertion")
+MEMORY = ("red zone", "invalid layout", "unknown block", "wrong layout", "MISALIGNED", "misaligned reference", "SLOT_OUT_OF_BLOCK", "already been dropped", "two mutable references", "assertion")
 
 def gen_fault_scripts(tier, seed, variant):
     rng = random.Random(seed)
@@ -637,6 +637,9 @@ def gen_calldep_scripts(tier, seed, variant):
     for i in range(n // 2):
         out.append(gen_map.make_run_script(rng, f"xu{seed}_{i}", switch_rule=rng.choice(
             ["hashrule calldep", "hashrule calldep", "hashrule calldep_near", "hashrule calldep;eqrule calldep", "eqrule calldep"])))
+    # ... and inconsistent inside a window around the EMPTY bytes, insertions through the entry path
+    for i in range(n // 2):
+        out.append(gen_map.make_window_script(rng, f"xw{seed}_{i}"))
     return "".join(out)
 
 def gen_table_scripts(tier, seed, variant):
@@ -652,7 +655,7 @@ def gen_layout_scripts(tier, seed, variant):
     rng = random.Random(seed)
     n = 56 if tier == "quick" else 180
     out = []
-    kinds = ["table-1", "table-2", "table-zst", "table-200", "table-a64", "table-drop", "table-plain"]
+    kinds = ["table-1", "table-2", "table-zst", "table-zst64", "table-200", "table-a64", "table-drop", "table-plain"]
     for i in range(n):
         r = i % 4
         if r == 0:
@@ -671,7 +674,7 @@ def gen_clone_scripts(tier, seed, variant):
 def check_c02(run):
     return script_property(
         run, gen_layout_scripts,
-        relevant=lambda f: f.kind == "CRASH" or (f.kind == "B-FAIL" and "SafeWF" in f.text) or (f.kind in ("H-FAIL", "A-FAIL") and any(k in f.text for k in MEMORY)),
+        relevant=lambda f: f.kind == "CRASH" or (f.kind == "B-FAIL" and "SafeWF" in f.text) or (f.kind in ("H-FAIL", "A-FAIL") and any(k in f.text for k in MEMORY)) or (f.kind == "A-FAIL" and "library panicked" in f.text),
         rule="safe-API histories over HashMap (two element flavours) and HashTable with element sizes 0, 1, 2, 24, 32, 200 and alignment up to 64 (> group width), lawful and call-dependent hashers, all hash-plan classes; the harness allocator puts red zones around every block and poisons fresh / freed memory, checks the layout of every request and release, the alignment of the control bytes and of every element slot and that every slot lies inside the block; iterators, drains, extract_if and entries are leaked with mem::forget part-way (the collection must stay valid: empty singleton after a leaked drain / into_iter, unchanged after a leaked entry); every dumped state must satisfy SafeWF (counters = number of FULL bytes, mirror bytes, at least one EMPTY byte ...) via the extracted wf_check; debug assertions of the library are enabled (debug profile) and count as findings",
         partial_note="Coq cannot exhibit undefined behaviour of compiled Rust (aliasing/provenance, validity of reads, the intrinsics); what is proved is the index / initialisation / ownership discipline: the model's checked primitives never fire (map_step_safe) and SafeWF is preserved for every operation and every hasher")
 
@@ -704,7 +707,7 @@ def check_c04(run):
 def check_c05(run):
     return script_property(
         run, gen_calldep_scripts,
-        relevant=lambda f: f.kind == "CRASH" or (f.kind == "B-FAIL" and "SafeWF" in f.text) or (f.kind == "H-FAIL") or (f.kind == "A-FAIL" and "len()=" in f.text),
+        relevant=lambda f: f.kind == "CRASH" or (f.kind == "B-FAIL" and "SafeWF" in f.text) or (f.kind == "H-FAIL") or (f.kind == "A-FAIL" and ("len()=" in f.text or "library panicked" in f.text)),
         levels="B",
         rule="HashMap and HashTable histories (incl. get_many_mut with repeated keys: the addresses of the returned &mut references are compared) under inconsistent Hash (a fresh pseudo-random hash on every call; or a fresh hash with a constant tag and one of 8 neighbouring positions, so that lookups under a different hash still reach stored elements), inconsistent Eq (a pseudo-random answer on every call), or both: every operation must return (harness timeout = non-termination finding), every dumped state must satisfy SafeWF (in particular len() = number of stored elements), the registry must show every element dropped exactly once, the allocator ledger must balance; lookup results are not judged")
 
@@ -745,7 +748,7 @@ def gen_capacity_scripts(tier, seed, variant):
     out = []
     for i in range(n):
         if i % 3 == 2:
-            out.append(gen_table.make_script(rng, f"k{seed}_{i}", kind=rng.choice(["table-drop", "table-plain", "table-1", "table-2", "table-200", "table-zst"])))
+            out.append(gen_table.make_script(rng, f"k{seed}_{i}", kind=rng.choice(["table-drop", "table-plain", "table-1", "table-2", "table-200", "table-zst", "table-zst64"])))
         else:
             out.append(gen_map.make_script(rng, f"k{seed}_{i}"))
     return "".join(out)
@@ -762,7 +765,7 @@ def gen_tryreserve_scripts(tier, seed, variant):
     out = []
     for i in range(n):
         if i % 4 == 3:
-            blk = gen_table.make_script(rng, f"r{seed}_{i}", kind=rng.choice(["table-zst", "table-1", "table-200", "table-drop"]))
+            blk = gen_table.make_script(rng, f"r{seed}_{i}", kind=rng.choice(["table-zst", "table-zst64", "table-1", "table-200", "table-drop"]))
             lines = blk.rstrip("\n").split("\n")
             res = []
             for l in lines:
